@@ -40,7 +40,9 @@ T0 = 1700000000.0
 
 # object kinds of the model (Cov.v)
 KINC, KGEN, KPULSE, KNOCOV = 0, 1, 2, 3
-OTYPE = {'analogInput': 0, 'analogValue': 2, 'binaryValue': 5, 'calendar': 6, 'multiStateValue': 19, 'pulseConverter': 24}
+OTYPE = {'analogInput': 0, 'analogValue': 2, 'binaryValue': 5, 'calendar': 6, 'multiStateValue': 19, 'pulseConverter': 24,
+         'loadControl': 28, 'accessDoor': 30}
+SHED = ['shedInactive', 'shedRequestPending', 'shedCompliant', 'shedNonCompliant']
 
 
 def oid_of(t, i):
@@ -116,6 +118,13 @@ class Sim:
             elif t == 'pulseConverter':
                 o = O.PulseConverterObject(objectIdentifier=(t, inst), objectName='pc%d' % inst, presentValue=pv / SCALE,
                                            statusFlags=flags, covIncrement=inc / SCALE, covPeriod=period)
+            elif t == 'loadControl':
+                from bacpypes.basetypes import ShedLevel, DateTime
+                o = O.LoadControlObject(objectIdentifier=(t, inst), objectName='lc%d' % inst, presentValue=SHED[pv], statusFlags=flags,
+                                        requestedShedLevel=ShedLevel(percent=10), startTime=DateTime(date=(120, 1, 1, 3), time=(1, 2, 3, 4)),
+                                        shedDuration=5, dutyWindow=7)
+            elif t == 'accessDoor':
+                o = O.AccessDoorObject(objectIdentifier=(t, inst), objectName='ad%d' % inst, presentValue='lock', statusFlags=flags)
             elif t == 'calendar':
                 o = O.CalendarObject(objectIdentifier=(t, inst), objectName='cal%d' % inst, presentValue=False, dateList=[])
             else:
@@ -139,7 +148,10 @@ class Sim:
         oid = oid_of(t, inst)
         vals = {pv.propertyIdentifier: pv.value for pv in apdu.listOfValues}
         names = [pv.propertyIdentifier for pv in apdu.listOfValues]
-        if names != ['presentValue', 'statusFlags']:
+        expect = ['presentValue', 'statusFlags']
+        if t == 'loadControl':
+            expect = ['presentValue', 'statusFlags', 'requestedShedLevel', 'startTime', 'shedDuration', 'dutyWindow']
+        if names != expect:
             pvz, flz = -999, -999
         else:
             if t in ('analogValue', 'analogInput', 'pulseConverter'):
@@ -147,6 +159,10 @@ class Sim:
                 pvz = int(x) if x == int(x) else -998
             elif t == 'binaryValue':
                 pvz = {'inactive': 0, 'active': 1}.get(vals['presentValue'].cast_out(BinaryPV), -997)
+            elif t == 'loadControl':
+                from bacpypes.basetypes import ShedState
+                x = vals['presentValue'].cast_out(ShedState)
+                pvz = SHED.index(x) if x in SHED else -997
             else:
                 pvz = int(vals['presentValue'].cast_out(Unsigned))
             bits = list(vals['statusFlags'].cast_out(StatusFlags))
@@ -250,6 +266,8 @@ class Sim:
                     o.presentValue = ['inactive', 'active'][v]
                 elif t == 'multiStateValue':
                     o.presentValue = v
+                elif t == 'loadControl':
+                    o.presentValue = SHED[v]
                 else:
                     o.presentValue = bool(v)
             elif prop == 'fl':
@@ -434,6 +452,8 @@ def gen_cfg(rng, period=None):
         ('multiStateValue', 1, KGEN, rng.randrange(1, 6), 0, 0, 0),
         ('pulseConverter', 1, KPULSE, rng.choice([0, 8, 200]), 0, rng.choice(INCS), per),
         ('calendar', 1, KNOCOV, 0, 0, 0, 0),
+        ('loadControl', 1, KGEN, rng.randrange(4), 0, 0, 0),      # LoadControlCriteria: six reported properties
+        ('accessDoor', 1, KNOCOV, 0, 0, 0, 0),                    # supports COV on paper, no criteria class registered
     ]
 
 
@@ -478,6 +498,8 @@ def gen_timeline(rng, cfg, nmin=6, nmax=28, focus_obj=None, fine=False):
                             v = ref[oi]          # return to the reported value
                     elif t == 'binaryValue':
                         v = rng.randrange(2)
+                    elif t == 'loadControl':
+                        v = rng.randrange(4)
                     else:
                         v = rng.randrange(1, 6)
                     cur[oi][0] = v
@@ -507,7 +529,8 @@ def gen_timeline(rng, cfg, nmin=6, nmax=28, focus_obj=None, fine=False):
             if q < 0.06:
                 oid = UNKNOWN_OID
             elif q < 0.1:
-                oid = oid_of(cfg[5][0], cfg[5][1])
+                nocov = rng.choice([c for c in cfg if c[2] == KNOCOV])
+                oid = oid_of(nocov[0], nocov[1])
             else:
                 oi = pick_obj()
                 oid = oid_of(cfg[oi][0], cfg[oi][1])
@@ -630,7 +653,7 @@ def gen_any(rng, nmin=6, nmax=28):
         ev, kind = gen_timeline(rng, cfg, nmin, nmax, focus_obj=rng.choice([0, 1]), fine=fine), 'analog'
     elif r < 0.65:
         cfg = gen_cfg(rng)
-        ev, kind = gen_timeline(rng, cfg, nmin, nmax, focus_obj=rng.choice([2, 3]), fine=fine), 'generic'
+        ev, kind = gen_timeline(rng, cfg, nmin, nmax, focus_obj=rng.choice([2, 3, 6]), fine=fine), 'generic'
     else:
         cfg = gen_cfg(rng)
         ev, kind = gen_timeline(rng, cfg, nmin, nmax, fine=fine), 'mixed'
